@@ -229,6 +229,8 @@ class Context:
         sort = {'real': z3.RealSort(), 'int': z3.IntSort(), 'bool': z3.BoolSort()}.get(a.kind)
         if sort is None:
             return None
+        if self.mode == 'refute' and all(isinstance(V.simp(d) if is_sym(d) else d, int) for d in a.shape):
+            return None          # refutation mode: sizes are concrete, the array keeps its defining expression (no quantified definition)
         F = self.fresh_fun(name, *([z3.IntSort()] * a.ndim), sort)
         qs = [z3.Int(f'nq{k}!{next(self.fresh_ctr)}') for k in range(a.ndim)]
         old = a.elem
